@@ -261,10 +261,16 @@ PROPS = {
     "C08": {
         "run": ["EvalProps"], "functional": False,
         "n": {"quick": 300, "thorough": 6000},
-        "level_text": "Theorems: storage written by Context::persist loads back to exactly the persisted failure count, poll interval and last-contact time at microsecond precision (never a mixture); the counter saturates.  The remaining clauses are decided by trace equality between the state-machine model (Model/SM.v, whose traces are the subject of the "
-                      "monitor theorems of C02/C05/C06/C07) and the real state machine on the property's projection of the trace: storage operations with their success flags, every clock reading, every policy question with the schedule/protocol state it is shown, and the schedule/protocol/result/state events.",
-        "level_note": "PARTIAL at the level of theorems (stated in Props/C08.v): the counting rules, commit-when-idle and crash consistency are not yet theorems; the crash-at-every-interaction rebuild harness of DESIGN C08 is not built yet (trace equality on the store projection stands in).  Model = code is sampled on scripted runs.",
-        "diff_meaning": "The implementation's projection of the trace differs from the model's on this scripted environment (or it panicked / hung).",
+        "level_text": "Theorems: (1) C08_bookkeeping_monitor_accepts_every_model_trace: for every script, configuration, stored state and entry point the model's trace is accepted by the executable monitor "
+                      "step8, which keeps the failure count (0 after a successful check or ping, saturating successor after a failed one) and the last-contact time (the clock reading at the end of a check that "
+                      "got an answer - success, parser error, plan error - or after a successful ping; untouched otherwise) and demands that the schedule and protocol state announced with every result carry them, "
+                      "that the policy is always shown them, and that right after the result the time (microseconds), the poll interval, the count and the apps are written and committed before anything else; "
+                      "(2) storage written by Context::persist loads back to exactly the persisted count, poll interval and last-contact time at microsecond precision, never a mixture "
+                      "(C08_rebuilt_state_is_last_persisted, C08_time_precision); the counter saturates.  Model tied to the code by trace equality on scripted runs (storage operations with success flags, "
+                      "clock readings, policy arguments, schedule/protocol/result/state events); the monitor also runs on every implementation trace.",
+        "level_note": "Proved for the model, unbounded, except: crash consistency at every interaction is not a theorem - atomic commit is the Storage trait's contract (trusted base), and the harness does not "
+                      "inject crashes; the persist after a ping is compared by trace equality only.  Model = code is sampled on scripted runs.",
+        "diff_meaning": "The bookkeeping monitor rejects the implementation's trace (code 2), or the storage / clock / policy-argument / event projection differs from the model's.",
         "rule": "random scripted histories of check and ping outcomes without storage faults; restarts are exercised by C07/C18's stored values; distinct = distinct implementation trace; non-trivial = at least one request or completed check",
         "assumptions": ["harness trait implementations follow the trait contracts", "Storage trait contract: writes cached until commit, commit atomic"],
         "trusted_base": COMMON_TB + ["modelled, not verified: state_machine.rs, update_check.rs, builder.rs, app_set.rs, common.rs"],
